@@ -63,13 +63,38 @@ Definition weight_auto (restart : bool) (sys : systems) (s e : nat) : R :=
 
 (* the weight the equation should get: that of its own measurement *)
 Definition own_weight (m0 : M) (sys : systems) (s e : nat) : R := wt (nth e (nth s sys []) m0).
+
+(* ---- w_offset of _vnacal_new_solve_simple as the loop computes it ----
+     int w_offset = 0;
+     for (sindex = 0; sindex < vn_systems; ++sindex) {
+         const int equations = vnsp->vns_equation_count;      (per system: the counts may differ)
+         ... w_vector[w_offset + eq_count] ...
+         w_offset += equations;
+     }
+   running_offsets k sys is the list of the values w_offset has at the top of the loop body.  The
+   closed form "sindex * equations" (equations = the count of the CURRENT system) is a model
+   variant: it agrees with the loop only when all the earlier systems have that same count. *)
+Fixpoint running_offsets (k : nat) (sys : systems) : list nat :=
+  match sys with
+  | [] => []
+  | eqs :: r => k :: running_offsets (k + length eqs)%nat r
+  end.
+Definition simple_index_loop (sys : systems) (s e : nat) : nat :=
+  (nth s (running_offsets 0%nat sys) 0 + e)%nat.
+Definition simple_index_closed (sys : systems) (s e : nat) : nat :=
+  (s * length (nth s sys []) + e)%nat.
+Definition weight_simple_loop (sys : systems) (s e : nat) : R :=
+  nth (simple_index_loop sys s e) (calc_weights false sys) r0.
+Definition weight_simple_closed (sys : systems) (s e : nat) : R :=
+  nth (simple_index_closed sys s e) (calc_weights false sys) r0.
 End W.
 
 (* ---- degrees of freedom, as coded in _vnacal_new_solve_calc_pvalue ---- *)
 Section Dof.
 Local Open Scope Z_scope.
 (* per system: df += 2 for every equation, then df -= 2 * (vl_t_terms - 1);
-   per off-diagonal leakage cell with more than one sample: df += 2 * (count - 1) *)
+   per off-diagonal leakage cell with more than one sample: df += 2 * (count - 1)
+   ("if (ltp->vnlt_count > 1)": cells with 0 samples and cells with 1 sample add nothing) *)
 Definition dof_systems (unknowns : Z) (eq_counts : list Z) : Z :=
   fold_left (fun df n => df + 2 * n - 2 * unknowns) eq_counts 0.
 Definition dof_leakage (counts : list Z) (df : Z) : Z :=
@@ -77,6 +102,21 @@ Definition dof_leakage (counts : list Z) (df : Z) : Z :=
 Definition dof (unknowns : Z) (eq_counts leak_counts : list Z) : Z :=
   dof_leakage leak_counts (dof_systems unknowns eq_counts).
 Definition zsum (l : list Z) : Z := fold_right Z.add 0 l.
+
+(* vnlt_count of one off-diagonal cell as _vnacal_new_solve_start_frequency accumulates it: one
+   sample for every standard whose measurement of the cell was given and that has no signal path
+   between the two ports ("if (m == NULL) continue; if (connectivity) continue; ++vnlt_count").
+   A standard is (given, connected) for the cell.  The count is 0 when every standard connects
+   the two ports. *)
+Definition leak_count (stds : list (bool * bool)) : Z :=
+  fold_left (fun n gc => if (fst gc && negb (snd gc))%bool then n + 1 else n) stds 0.
+(* df from the per-cell lists of standards *)
+Definition dof_of_standards (unknowns : Z) (eq_counts : list Z) (cells : list (list (bool * bool))) : Z :=
+  dof unknowns eq_counts (map leak_count cells).
+(* model variant: "df += 2 * (n - 1)" applied to every cell, whatever its count (subtracts two
+   degrees of freedom for every cell without samples) *)
+Definition dof_leakage_unguarded (counts : list Z) (df : Z) : Z :=
+  fold_left (fun df n => df + 2 * (n - 1)) counts df.
 End Dof.
 
 (* ---- the end of _vnacal_new_solve_calc_pvalue and the test in _vnacal_new_solve_internal ----
